@@ -523,7 +523,9 @@ func checkSign(c sigCase) (err error) {
 		// the labels in front of the rightmost Labels ones replaced (for "*.zone" signed with the RFC
 		// value: the "*"; for an owner like "*a.zone", which Sign takes for a wildcard too, that label:
 		// the expansion is judged against the Labels field that is in the RRSIG)
-		if drop := len(owner) - int(b.w.F.Labels); drop > 0 && len(c.Expansion) > 0 {
+		// (the labels that stay must still contain the signer name - the precondition of all cases; a zone
+		// apex like "*0.zone." signed by Sign as if it were a wildcard has no such expansion)
+		if drop := len(owner) - int(b.w.F.Labels); drop > 0 && len(c.Expansion) > 0 && int(b.w.F.Labels) >= len(c.Signer) {
 			exp := append(wm.Name{}, c.Expansion...)
 			exp = append(exp, owner[drop:].Clone()...)
 			if exp.Valid() && !isWild(exp) {
